@@ -88,6 +88,13 @@ def enumerate_cases(tier, shard, nshards, seed):
     yield from em.single_edit_grid(progs, tier, shard, nshards, seed, n_expr=3, thin=thin, remove_optsets=em.GRID_OPTSETS, cut=True)
     yield from em.slice_edit_grid(progs, tier, shard, nshards, seed, thin=thin, only_ops=('insert',))
 
+    # two-step histories with warm caches: a line comment put (setup) followed by the removal / cut of an enclosing statement
+    for case in em.ancestor_two_step_grid(gen.TRIVIA_PROGRAMS, tier, shard, nshards, seed, thin=thin):
+        if case['steps'][1]['op'] in ('remove', 'cut'):
+            case['steps'][0]['setup'] = True
+
+            yield case
+
 
 def trivia_split(opt):
     """-> (leading comments kind, trailing comments kind) in {'none', 'block', 'all', 'line'} from a trivia option value,
@@ -462,6 +469,22 @@ def check_edit(old, new, node, parent, field, idx, opts, op, desc, site, ctx, in
     if used:
         ctx.count('tolerated_added_close_delimiter')
 
+    # deletion of a statement: whatever is left between the kept prefix and the kept suffix was already there inside A_max (comments that stay, a
+    # block header) - a deletion invents no token
+    if op in ('remove', 'cut') and isinstance(node, ast.stmt) and insertion_at is None:
+        zone = Counter(_strip(otoks[i0:i1 + 1], ex))
+        middle = Counter(new_s[len(old_pre):len(new_s) - len(old_suf)]) if len(old_pre) + len(old_suf) <= len(new_s) else Counter()
+        residue = middle - zone
+
+        for d in ('(', '[', ')', ']', ','):  # the tolerated delimiters above
+            residue.pop((tokenize.OP, d), None)
+
+        ctx.count('deletion_residue_checked')
+
+        if residue:
+            raise Violation('C04.residue', f'{desc}: the deletion left token(s) behind which were not in the source before: {[t[1] for t in residue][:8]}\n--- old ---\n{old[:1000]}\n--- new ---\n{new[:1000]}',
+                            f'residue:{site}')
+
     # comments outside A_max conserved (none lost, none duplicated)
     out_comments = Counter(t[1] for k, t in enumerate(otoks) if t[0] == tokenize.COMMENT and (not i0 <= k <= i1 or k in protected))
     new_comments = Counter(t[1] for t in ntoks if t[0] == tokenize.COMMENT)
@@ -563,6 +586,17 @@ def execute(case, ctx):
         raise Skip(f'build_failed:{type(exc).__name__}') from None
 
     for i, step in enumerate(case['steps']):
+        if step.get('setup'):  # an edit that only prepares the state (e.g. a line comment put): applied, not judged here
+            try:
+                ap0 = em.apply_step(root, step, c01.BASE_OPTS)
+            except em.StepSkipped:
+                return
+
+            if ap0.raised:
+                return
+
+            continue
+
         old = root.src
 
         try:
@@ -621,12 +655,18 @@ def execute(case, ctx):
 
         new = root.src
 
+        broken = False
+
         try:
             c01.check_invariant(root, ap, 'C04.pre')
         except Violation:
             ctx.count('c01_violation(reported by C01)')
+            broken = True  # source and tree disagree: the text clauses below are still decidable if the new source tokenises; the sequence stops after this step
 
-            return
+            try:
+                K_pos(new)
+            except Exception:
+                return
 
         if new == old:
             ctx.count('noop_edits')
@@ -730,3 +770,6 @@ def execute(case, ctx):
 
         if nontrivial:
             ctx.mark_nontrivial([case['src'], case['steps'][:i + 1]], {'src_before_edit': old[:400], 'edit': ap.desc})
+
+        if broken:
+            return
